@@ -162,6 +162,7 @@ class HdfWriter:
 
 class Reader:
     """Keys read from parameter `dparam` (and aliases) by a from_dict-like function."""
+    REGISTRY = []
 
     def __init__(self, prog, f: FuncInfo, dparam=None, body=None, hdf=False):
         self.prog, self.f = prog, f
@@ -169,6 +170,9 @@ class Reader:
         self.required = {}      # key -> node (subscript load)
         self.optional = set()   # keys tested with `in` / .get
         self.splat = []         # Call nodes receiving **d
+        self.tested = {}        # key -> node: presence tested with `in`
+        self.valueread = set()  # keys whose stored value is read (subscript / .get / **d)
+        Reader.REGISTRY.append(self)
         nodes = body if body is not None else [f.node]
         names = {self.dparam}
         for root in nodes:
@@ -189,15 +193,18 @@ class Reader:
                     ck = const_key(n.slice)
                     if ck:
                         self.required.setdefault(ck, n)
+                        self.valueread.add(ck)
                 elif isinstance(n, ast.Compare) and len(n.ops) == 1 and isinstance(n.ops[0], (ast.In, ast.NotIn)) \
                         and isinstance(n.comparators[0], ast.Name) and n.comparators[0].id in names:
                     ck = const_key(n.left)
                     if ck:
                         self.optional.add(ck)
+                        self.tested.setdefault(ck, n)
                 elif isinstance(n, ast.Call) and isinstance(n.func, ast.Attribute) and n.func.attr == "get" \
                         and isinstance(n.func.value, ast.Name) and n.func.value.id in names and n.args \
                         and const_key(n.args[0]) and "/" not in const_key(n.args[0]):
                     ck = const_key(n.args[0])
+                    self.valueread.add(ck)
                     if len(n.args) > 1:
                         self.optional.add(ck)
                     else:
@@ -303,6 +310,7 @@ def run(chk):
         "These are necessary conditions of the round trip for all objects at once; value fidelity of numpy/h5py is not decided.")
     chk.trusted_base = ["python ast parser", "numpy/h5py store values faithfully"]
     chk.assumptions = ["legacy (deprecated) save_to_dict formats are only checked for key agreement"]
+    Reader.REGISTRY.clear()
     tensor_pairs(chk)
     mps_pairs(chk)
     peps_pairs(chk)
@@ -312,6 +320,22 @@ def run(chk):
     guards(chk)
     dtype_table(chk)
     normalised_copy(chk)
+    from . import e10
+    e10.run_U5(chk, ("yastn",), rule="Z9")
+    # a key whose presence the reader tests is a key whose value the reader restores
+    chk.rule("Z10", "every key a reader tests for presence (`k in d`) is also read by it (d[k] / d.get(k)): the stored value is restored, not merely detected", floor=5)
+    seen = set()
+    for r in Reader.REGISTRY:
+        for k, node in sorted(r.tested.items()):
+            key = (r.f.qualname, k)
+            if key in seen or k in ("dict_ver",):
+                continue
+            seen.add(key)
+            if k in r.valueread or r.splat:
+                chk.ok("Z10", (r.f, node), f"{r.f.short}: '{k}' tested and read", sample=False)
+            else:
+                chk.bad("Z10", (r.f, node), f"{r.f.short}: '{k}'", f"{r.f.short}(): the reader tests `'{k}' in {r.dparam}` but never reads `{r.dparam}['{k}']`: "
+                        f"whatever was stored under '{k}' is not what is restored (typically a copy-paste slip reading a sibling key instead)")
 
 
 def _z1(chk, f, cls_name, state, written, rename=None, extra_ok=None):
